@@ -123,20 +123,25 @@ func (s *SchedSpec) explore(c *Ctx, prefix []vsched.Choice, split bool) (childre
 		rp, _ := json.Marshal(schedReplay{Unit: s.UnitName, Choices: all, Outcome: x.outcome})
 		v.Replay = rp
 		v.Stable = true
-		for k := 0; k < 4 && v.Stable && !v.Once; k++ {
-			y := s.run(all)
-			ok := y.outcome == x.outcome
-			found := false
-			for _, o := range y.viols {
-				if o.Assert == v.Assert && o.Witness == v.Witness {
-					found = true
+		if !v.Once {
+			n := 0
+			for k := 0; k < 4; k++ {
+				y := s.run(all)
+				for _, o := range y.viols {
+					if o.Assert == v.Assert && o.Witness == v.Witness {
+						n++
+						break
+					}
 				}
 			}
-			v.Stable = ok && found
-		}
-		if !v.Stable {
-			a.Errors = append(a.Errors, fmt.Sprintf("%s: violation %s not reproducible on the same schedule (nondeterminism): %s", s.UnitName, v.Assert, v.Detail))
-			continue
+			v.Stable = n == 4
+			if n == 0 {
+				a.Errors = append(a.Errors, fmt.Sprintf("%s: violation %s not reproducible on the same schedule (nondeterminism): %s", s.UnitName, v.Assert, v.Detail))
+				continue
+			}
+			if !v.Stable {
+				v.Detail += fmt.Sprintf(" [shown again by %d of 4 re-executions of the same schedule]", n)
+			}
 		}
 		c.Report(v)
 	}
